@@ -5,6 +5,7 @@ MODULES = [
     ('src/lib.rs', 'verif_kani_addr', 'addr.rs'),
     ('src/lib.rs', 'verif_kani_endian', 'endian.rs'),
     ('src/volatile_memory.rs', 'verif_kani_vs', 'vs.rs'),
+    ('src/volatile_memory.rs', 'verif_kani_c06', 'c06.rs'),
 ]
 
 _ADDR_CTX = [r'macro_rules!\s+impl_address_ops', r'\(\$T:ident, \$V:ty\)\s*=>', r'impl Address for \$T']
